@@ -342,7 +342,7 @@ class NeedIndirect(NeedState):
                     goalField = 'value'
 
                 else: #use stateField
-                    goalField = stateField
+                    goalField = parms['stateField']
             else:
                 goalField = 'value'
 
